@@ -2,6 +2,7 @@ package props
 
 import (
 	"fmt"
+	"go/types"
 	"math/big"
 	"strings"
 
@@ -20,7 +21,7 @@ func init() {
 			"SERVE the handler refuses misaligned offsets, serves archive[(tso-origin)/2016] iff tso < offset (index in range by CONTIG) and otherwise the builder's result; ROTATE in one critical section the record built for the pre-increment offset is appended to the archive and written with one append-mode Write " +
 			"(a failure stops the process), for every device copy(a[:2016], a[2016:]) precedes copy(a[2016:], zeros) with exactly these bounds, for reports and impact rates, and the offset advances by 2016 exactly once; CONTIG offset == 2016*len(archive) (every writer of the offset is the rotation or the loader); " +
 			"IMMUTABLE no instruction anywhere stores through a value that may originate from the archive list (only whole-record appends write it), so a served record cannot be changed by any request (origin classes follow slice headers copied out under the lock); the statistics file is only opened in append mode. " +
-			"COVER AllDeviceStats.SigningBytes covers the number of devices and every field of every device record at full width, and the timeslot offset. the device-table rules of C06 are re-run (a ban removes the id from the report map the builder ranges over). NOT decided: equality of the served JSON with an independent encoder; histories as such; that rotation happens at the right time (C20).",
+			"COVER AllDeviceStats.SigningBytes covers the number of devices and every field of every device record at full width, and the timeslot offset, and writes them exactly as Serialize does (same widths, byte order and float bit patterns: the signed bytes are the served bytes). the device-table rules of C06 are re-run (a ban removes the id from the report map the builder ranges over). SERVE also: a number parsed from the request is narrowed only when BOUND shows that it fits; BUILD also: the per-slot copy is on every path through the slot loop; ROTATE also: the archive saver hands the record it received to Serialize unchanged. NOT decided: equality of the served JSON with an independent encoder; histories as such; that rotation happens at the right time (C20).",
 		Assumptions: append([]string{"glow.Sign is deterministic (RFC 6979, trusted)"}, baseAssumptions...),
 		Run:         runC03,
 	})
@@ -39,6 +40,7 @@ func findBuilder(p *an.Program) *ssa.Function {
 func runC03(c *an.Ctx) {
 	p := c.P
 	signingCoverage(c, "COVER", "server", "AllDeviceStats", "Signature")
+	statsSignedLayout(c, "COVER")
 	builder := findBuilder(p)
 	if builder == nil {
 		c.Undecided("ANCHOR", nil, 0, "stats-builder", "weekly statistics builder not found", "anchor missing")
@@ -173,6 +175,13 @@ func buildRules(c *an.Ctx, fn *ssa.Function) {
 						want := an.NormBin("+", xT, i)
 						if idx.Key() == want.Key() && src.A[0].K == an.KExt && src.A[0].S == "2" && src.A[0].A[0].K == an.KRange {
 							okPow = true
+							// every slot of the week is copied: no pass of the slot loop goes around the store (a skipped
+							// slot is published as 0, whatever was recorded - including the ban sentinel)
+							if l := innermostLoopOf(fn, x.Block()); l != nil {
+								c.Check(l.everyIteration(x.Block()) && len(l.earlyExits()) == 0, "BUILD", fn, x.Pos(), an.KeyOf(fn, "copy-power-every-slot"), "every slot of the selected week is copied into the record, whatever its value (0, the ban sentinel 1, or a reading)", "the store is on every path through the slot loop and the loop is not left early")
+							} else {
+								c.Violated("BUILD", fn, x.Pos(), an.KeyOf(fn, "copy-power-every-slot"), "the per-slot copy is not inside a loop over the week", "shape not recognised")
+							}
 						}
 					}
 				}
@@ -298,9 +307,38 @@ func serveRules(c *an.Ctx, builder *ssa.Function) {
 	c.Check(okLive, "SERVE", handler, handler.Pos(), an.KeyOf(handler, "live-branch"), "otherwise (offset <= tso) the record is built from the live window for the requested offset", "builder call under offset <= tso")
 	c.Check(okAligned, "SERVE", handler, handler.Pos(), an.KeyOf(handler, "aligned"), "misaligned offsets are refused before any lookup (tso % 2016 == 0 dominates)", "dominating fact")
 	c.Count("SERVE", 3)
+	// the week that is checked and served is the week that was asked for: a number parsed from the request is narrowed
+	// only when nothing is lost (otherwise 2^32 + k is served as week k)
+	for _, b := range handler.Blocks {
+		for _, in := range b.Instrs {
+			cv, ok := in.(*ssa.Convert)
+			if !ok {
+				continue
+			}
+			from, _, ok1 := intBits(cv.X.Type())
+			to, toSigned, ok2 := intBits(cv.Type())
+			xt := fi.Term(cv.X)
+			if !ok1 || !ok2 || to >= from || !xt.Contains(func(t *an.Term) bool {
+				return (t.K == an.KPure || t.K == an.KCall) && strings.HasPrefix(t.Callee(), "strconv.Parse")
+			}) {
+				continue
+			}
+			hi := int64(1)<<uint(to) - 1
+			lo := int64(0)
+			if toSigned {
+				hi = int64(1)<<uint(to-1) - 1
+				lo = -(int64(1) << uint(to-1))
+			}
+			sys := fi.SysFor(cv)
+			c.Check(sys.ProveLE(xt, hi) && sys.ProveGE(xt, lo), "SERVE", handler, cv.Pos(), an.KeyOf(handler, "request-number-lossless"),
+				"a number parsed from the request is converted to a narrower type only when it fits (the offset that is checked and served is the offset that was requested)", "range of the parsed value "+sys.Describe(xt)+", target "+cv.Type().String())
+			c.Count("SERVE", 1)
+		}
+	}
 }
 
 func rotateRules(c *an.Ctx, cg contigResult) {
+	statsSaverRule(c)
 	p := c.P
 	if len(cg.Rotations) == 0 {
 		c.Violated("ROTATE", nil, 0, "rotation", "no rotation function recognised (append of the built record + offset += 2016)", "CONTIG found no rotation")
@@ -503,6 +541,65 @@ func rotateRules(c *an.Ctx, cg contigResult) {
 	c.Check(an.Held(lf.StateAt(appendSt, "GCAServer.mu")) && an.Held(lf.StateAt(offsetSt, "GCAServer.mu")) &&
 		fi.VersionAt(appendSt, an.Class{Root: "T:GCAServer", Path: []string{"mu"}}) == fi.VersionAt(offsetSt, an.Class{Root: "T:GCAServer", Path: []string{"mu"}}),
 		"ROTATE", rot, rot.Pos(), an.KeyOf(rot, "one-section"), "archive, shift and advance happen in one critical section (no observer sees a half-rotated window)", "no lock operation between the append and the offset store")
+}
+
+// statsSaverRule: the function that appends an archived week to allDeviceStats.dat writes the record it was given:
+// nothing in it changes the record (or hands its device list to code that may reorder or change it) before it is
+// serialized, so the bytes on disk are the bytes the builder signed.
+func statsSaverRule(c *an.Ctx) {
+	p := c.P
+	n := 0
+	for _, fn := range p.FuncsIn("server") {
+		proto, _ := p.WriterProtocol(fn, "allDeviceStats.dat")
+		if proto != "append-1" || len(fn.Params) < 2 {
+			continue
+		}
+		fi := p.Info(fn)
+		var rec *ssa.Parameter
+		for _, q := range fn.Params {
+			if strings.HasSuffix(q.Type().String(), "AllDeviceStats") {
+				rec = q
+			}
+		}
+		if rec == nil {
+			continue
+		}
+		n++
+		c.Scope(fn)
+		recT := fi.Term(rec)
+		ok, why := true, "the record parameter is only serialized"
+		for _, b := range fn.Blocks {
+			for _, in := range b.Instrs {
+				switch x := in.(type) {
+				case *ssa.Store:
+					at := fi.Term(x.Addr)
+					if _, isParam := x.Val.(*ssa.Parameter); isParam {
+						continue // the spill of the parameter itself
+					}
+					if at.Contains(func(t *an.Term) bool { return t.Key() == recT.Key() }) || strings.Contains(fi.RefClass(x.Addr).String(), "DeviceStats") {
+						ok, why = false, "store into the record at "+p.Pos(x.Pos())
+					}
+				case *ssa.Call:
+					cn := an.CalleeName(&x.Call)
+					if strings.HasSuffix(cn, "AllDeviceStats).Serialize") || strings.HasPrefix(cn, "(*os.File).") || strings.HasPrefix(cn, "os.") || strings.HasPrefix(cn, "fmt.") || strings.HasPrefix(cn, "path/filepath.") {
+						continue
+					}
+					for _, a := range x.Call.Args {
+						at := fi.Term(a)
+						if _, isBasic := a.Type().Underlying().(*types.Basic); isBasic {
+							continue // a number or a string derived from the record cannot change it
+						}
+						if strings.Contains(a.Type().String(), "DeviceStats") || at.Contains(func(t *an.Term) bool { return (t.K == an.KField || t.K == an.KFA) && t.S == "Devices" }) {
+							ok, why = false, "the record (or its device list) is handed to "+cn+" at "+p.Pos(x.Pos())+" before it is written"
+						}
+					}
+				}
+			}
+		}
+		c.Check(ok, "ROTATE", fn, fn.Pos(), an.KeyOf(fn, "saver-writes-signed-record"), "the archive saver writes the record exactly as it received it (the builder signed it; reordering or changing it afterwards leaves a record on disk that does not verify)", why)
+	}
+	c.Count("STATS-SAVER", n)
+	c.Floor("STATS-SAVER", 1)
 }
 
 func immutableRules(c *an.Ctx) {
